@@ -139,12 +139,17 @@ pub fn cases(tier: Tier) -> Vec<Case> {
                 (Aff::identity(1), None),
                 (Aff::row1(&[2.0], 1.0), Some(Aff::row1(&[0.0], -1.0))),
                 (Aff::new(vec![vec![1.0], vec![-1.0]], vec![0.0, 0.5]), Some(Aff::new(vec![vec![0.0], vec![0.0]], vec![3.0, 3.0]))),
+                // an else-branch that is nearly, but not exactly, the then-branch
+                (Aff::row1(&[0.0], 1.0), Some(Aff::row1(&[0.0], 1.0 + f64::EPSILON))),
+                (Aff::row1(&[1.0], 0.0), Some(Aff::row1(&[1.0], 2f64.powi(-60)))),
+                (Aff::row1(&[1.0], 0.0), Some(Aff::row1(&[1.0 + f64::EPSILON], 0.0))),
             ]
         } else {
             vec![
                 (Aff::identity(2), None),
                 (Aff::row1(&[1.0, -1.0], 0.5), Some(Aff::row1(&[0.0, 0.0], 7.0))),
                 (Aff::row1(&[1.0, 2.0], 0.0), None),
+                (Aff::row1(&[0.0, 0.0], 1.0), Some(Aff::row1(&[0.0, 2f64.powi(-60)], 1.0))),
             ]
         };
         for rows in poly_grid(dim, tier) {
@@ -405,7 +410,8 @@ pub fn run_case_mode(c: &Case, paths_only: bool) -> CaseOut {
     let mut conf = 0u64;
     let mut conf_err = None;
     // (values at points next to a bias of 1 + 2^-52 are not exactly representable)
-    let ulp_rows = matches!(c, Case::FromPoly { rows, .. } if rows.iter().any(|(_, b)| (*b * 1024.0).fract() != 0.0));
+    let fine = |a: &Aff| a.mat.iter().flatten().chain(a.bias.iter()).any(|v| (*v * 1024.0).fract() != 0.0);
+    let ulp_rows = matches!(c, Case::FromPoly { rows, f_true, f_false, .. } if rows.iter().any(|(_, b)| (*b * 1024.0).fract() != 0.0) || fine(f_true) || f_false.as_ref().map(|f| fine(f)).unwrap_or(false));
     let exact_vals = !matches!(c, Case::HardSigmoid(..)) && !ulp_rows;
     let o = refine(n, &imp, rf.as_ref(), &cfg, &mut out, &mut |face, _, _| {
         let (n, e) = conform_face(&tree, &s, face, exact_vals);
